@@ -168,11 +168,73 @@ def method_flags(cls: ast.ClassDef, params: list[str], src: str):
     return out, hashes
 
 
+LOSSY_TEXT_METHODS = {"lower", "upper", "casefold", "swapcase", "capitalize", "title", "strip", "rstrip", "lstrip"}
+
+
+def hash_facts(cls: ast.ClassDef, src: str):
+    """`_create_hash_from_expression`: what text the CTE name is a crc32 of, and how many characters of it are kept.
+    The model takes a name for the content it was hashed from ("same name => same content"); that needs the hashed
+    text to be the SQL text itself (any str method that maps different texts to one -- lower(), strip() ... -- is
+    translated as `hash_text_exact := false`; any other shape is refused)."""
+    fn = None
+    for st in cls.body:
+        if isinstance(st, ast.FunctionDef) and st.name == "_create_hash_from_expression":
+            fn = st
+    if fn is None:
+        raise Untranslatable("_create_hash_from_expression not found")
+    params = _params(fn)
+    if len(params) != 2:
+        raise Untranslatable(f"_create_hash_from_expression parameters changed: {params}")
+    assigns = {st.targets[0].id: st.value for st in ast.walk(fn)
+               if isinstance(st, ast.Assign) and len(st.targets) == 1 and isinstance(st.targets[0], ast.Name)}
+    crc = [n for n in ast.walk(fn) if isinstance(n, ast.Call) and dotted(n.func) in ("zlib.crc32", "crc32")]
+    if len(crc) != 1 or len(crc[0].args) != 1 or crc[0].keywords:
+        raise Untranslatable("_create_hash_from_expression: expected exactly one zlib.crc32(<text>) call")
+    node = crc[0].args[0]
+    seen = set()
+    while isinstance(node, ast.Name) and node.id in assigns and node.id not in seen:
+        seen.add(node.id)
+        node = assigns[node.id]
+    exact = True
+    # <expression>.sql(...)[.method()]*.encode(...)
+    while True:
+        if not (isinstance(node, ast.Call) and isinstance(node.func, ast.Attribute)):
+            raise Untranslatable("_create_hash_from_expression: hashed value is not a chain of method calls on expression.sql(..)")
+        meth = node.func.attr
+        if meth == "sql":
+            if dotted(node.func.value) != params[1]:
+                raise Untranslatable("_create_hash_from_expression: .sql() is not called on the expression parameter")
+            break
+        if meth == "encode":
+            pass
+        elif meth in LOSSY_TEXT_METHODS and not node.args and not node.keywords:
+            exact = False
+        else:
+            raise Untranslatable(f"_create_hash_from_expression: unknown text transformation .{meth}()")
+        node = node.func.value
+    # f"t{crc}"[:N]
+    chars = None
+    for n in ast.walk(fn):
+        if isinstance(n, ast.Subscript) and isinstance(n.value, ast.JoinedStr) and any(c is crc[0] for c in ast.walk(n.value)):
+            sl = n.slice
+            if not (isinstance(sl, ast.Slice) and sl.lower is None and sl.step is None
+                    and isinstance(sl.upper, ast.Constant) and isinstance(sl.upper.value, int) and 0 < sl.upper.value < 64):
+                raise Untranslatable("_create_hash_from_expression: the name is not a [:N] prefix")
+            chars = sl.upper.value
+    if chars is None:
+        js = [n for n in ast.walk(fn) if isinstance(n, ast.JoinedStr) and any(c is crc[0] for c in ast.walk(n))]
+        if len(js) != 1:
+            raise Untranslatable("_create_hash_from_expression: the name is not an f-string of the crc32")
+        chars = 11       # "t" + at most 10 decimal digits
+    return exact, chars, py2v.src_hash(fn, src)
+
+
 def generate(repo: str):
     tree, src = py2v.load(os.path.join(repo, "sqlframe/base/dataframe.py"))
     cls = py2v.find_class(tree, "BaseDataFrame")
     params, swap, so_hash = set_operation_shape(cls, src)
     flags, hashes = method_flags(cls, params, src)
+    h_exact, h_chars, h_hash = hash_facts(cls, src)
     decos = c01_facts.method_decorators(tree, "BaseDataFrame", "operation")
     kinds = {}
     for m, (_, _, defname) in flags.items():
@@ -187,12 +249,16 @@ def generate(repo: str):
          "Definition kind (m : meth) : opk := match m with " +
          " | ".join(f"{c} => {kinds[m]}" for c, m in METHODS.items()) + " end.",
          f"Definition swap : bool := {'true' if swap else 'false'}.",
-         "Definition gen_facts : facts := mkFacts flags kind swap."]
+         "Definition gen_facts : facts := mkFacts flags kind swap.",
+         f"Definition hash_text_exact : bool := {'true' if h_exact else 'false'}.",
+         f"Definition hash_name_chars : nat := {h_chars}."]
     facts = [
         {"name": "flags", "from": "dataframe.py: arguments of _set_operation in each method",
          "value": {m: [flags[m][0], flags[m][1]] for m in flags}, "hash": hashes},
         {"name": "kind", "from": "dataframe.py: @operation decorator of each set-operation method", "value": kinds},
         {"name": "swap", "from": "dataframe.py: _set_operation klass(this=.., expression=..)", "value": swap, "hash": so_hash},
+        {"name": "hash_text_exact / hash_name_chars", "from": "dataframe.py: _create_hash_from_expression",
+         "value": [h_exact, h_chars], "hash": h_hash},
     ]
     return "\n".join(L) + "\n", facts
 
